@@ -108,6 +108,10 @@ class Prop:
         """-> (entry code, val)"""
         raise NotImplementedError
 
+    def canon(self, case, obs):
+        """Canonicalise an observation (model's and implementation's alike) before diffing: sort set-like parts..."""
+        return obs
+
     def in_domain(self, case):
         """True when the property fixes the observation of this case completely, so that any difference
         between implementation and model is a violation with this case as the failing input."""
@@ -469,9 +473,15 @@ def canon_key(v):
 def evaluate(prop, cases):
     """Run model + implementation; classify."""
     pairs = [prop.to_model(c) for c in cases]
-    mres = run_model(pairs)
+    mraw = run_model(pairs)
     ires = run_impl(prop, cases)
+    mres = [prop.canon(c, m) for c, m in zip(cases, mraw)]
+    ires = [i if isinstance(i, dict) or _is_fail(i) else prop.canon(c, i) for c, i in zip(cases, ires)]
     return pairs, mres, ires
+
+
+def _is_fail(i):
+    return isinstance(i, list) and len(i) == 2 and i[0] == 1 and i[1] in (E["Diverges"], E["Crash"])
 
 
 def classify(prop, case, m, i):
@@ -600,7 +610,8 @@ def run_check(prop, tier, seed, scratch, t0, n_override=None):
     if model_ok and pf["ok"]:
         k = min(len(pairs), 150 if tier == "quick" else 600)
         idxs = sorted(rng.sample(range(len(pairs)), k)) if k else []
-        xs, xbad = cross_check_in_coq([pairs[j] for j in idxs], [mres[j] for j in idxs], scratch, pf["log"])
+        raw = run_model([pairs[j] for j in idxs])
+        xs, xbad = cross_check_in_coq([pairs[j] for j in idxs], raw, scratch, pf["log"])
         if xbad != 0:
             pf["ok"] = False
             pf["broken"] = "extracted runner disagrees with vm_compute on %s sampled cases" % xbad
